@@ -50,6 +50,25 @@ class _File:
     def write(self, data):
         data = bytes(data)
         self._layer.call("write", self._path)
+        if self._layer.short_pending:
+            # the device is full: only the first half of the data is stored.
+            # An unbuffered (raw) file reports the short count like the
+            # system call does; a buffered file would retry the rest, get
+            # ENOSPC from the kernel and raise it.
+            self._layer.short_pending = False
+            part = data[:len(data) // 2]
+            n = self._real.write(part) if part else 0
+            try:
+                self._real.flush()
+            except Exception:       # noqa
+                pass
+            self._layer.event(("write", self._path, self._pos, part))
+            self._pos += len(part)
+            if isinstance(self._real, io.RawIOBase):
+                return n
+            import errno as _errno
+            raise OSError(_errno.ENOSPC, os.strerror(_errno.ENOSPC),
+                          self._path)
         n = self._real.write(data)
         self._layer.event(("write", self._path, self._pos, data))
         self._pos += len(data)
@@ -129,6 +148,7 @@ class Layer:
         self.events = []       # disk-changing events in order
         self.active = False
         self.fired = False
+        self.short_pending = False
         self.fds = {}
 
     # -- bookkeeping -------------------------------------------------------------
@@ -146,6 +166,13 @@ class Layer:
         idx = len(self.calls)
         self.calls.append((kind, os.fspath(path)))
         if self.mode == "fail" and idx == self.k and not self.fired:
+            if self.err == "SHORT":
+                # a full device: the write stores only a part of the data
+                # (see _File.write); only meaningful for write calls
+                if kind == "write":
+                    self.fired = True
+                    self.short_pending = True
+                return
             self.fired = True
             raise OSError(self.err, os.strerror(self.err), os.fspath(path))
 
